@@ -46,13 +46,19 @@ def leaf_key(node):
     return norm(node), False
 
 
-def three_val(test, val, seen=None):
-    """True / False / None for `test` under the partial valuation `val` (canonical leaf text -> bool)."""
+def three_val(test, val, seen=None, defs=None, depth=0):
+    """True / False / None for `test` under the partial valuation `val` (canonical leaf text -> bool).
+    A bare local name that is defined once as a boolean expression is evaluated through its definition."""
     if isinstance(test, ast.UnaryOp) and isinstance(test.op, ast.Not):
-        v = three_val(test.operand, val, seen)
+        v = three_val(test.operand, val, seen, defs, depth)
         return None if v is None else (not v)
+    if isinstance(test, ast.Call) and (call_name(test) or "") == "bool" and len(test.args) == 1:
+        return three_val(test.args[0], val, seen, defs, depth)
+    if isinstance(test, ast.Name) and norm(test) not in val and defs and len(defs.get(test.id, [])) == 1 and depth < 4 \
+            and isinstance(defs[test.id][0], (ast.BoolOp, ast.Compare, ast.UnaryOp, ast.Call)):
+        return three_val(defs[test.id][0], val, seen, defs, depth + 1)
     if isinstance(test, ast.BoolOp):
-        vs = [three_val(v, val, seen) for v in test.values]
+        vs = [three_val(v, val, seen, defs, depth) for v in test.values]
         if isinstance(test.op, ast.And):
             if any(v is False for v in vs):
                 return False
@@ -70,6 +76,10 @@ def three_val(test, val, seen=None):
 
 def reach_under(g, val):
     """nodes reachable from the entry when tests decided by `val` take only their feasible branch"""
+    defs = {}
+    for st in ast.walk(g.func):
+        if isinstance(st, ast.Assign) and len(st.targets) == 1 and isinstance(st.targets[0], ast.Name):
+            defs.setdefault(st.targets[0].id, []).append(st.value)
     seen = {g.entry}
     todo = [g.entry]
     used = set()
@@ -78,7 +88,7 @@ def reach_under(g, val):
         node = g.nodes[n]
         decided = None
         if node.kind in ("if", "while") and node.expr is not None:
-            decided = three_val(node.expr, val, used)
+            decided = three_val(node.expr, val, used, defs)
         for e in g.succ[n]:
             b, lab = e[0], e[1]
             if decided is not None and lab in ("true", "false") and (lab == "true") != decided:
@@ -256,6 +266,11 @@ def run(ctx):
     ctx.rule("R1", "under the violating valuation no path reaches the normal exit or a result producer (three-valued CFG exploration)")
     ctx.rule("R2", "the predicates behind the guard atoms are the documented ones (comparison direction, electron count, parity, range, table)")
     ctx.rule("R3", "guards sit before the computation in the callers (check_input before parsing; solver factory before the first iteration)")
+    ctx.rule("R4", "no singularity is merely masked by torch.where on a differentiable path (0*inf = NaN gradients without a flag)")
+    from .. import wherenan
+    n4 = wherenan.check(ctx, "R4")
+    if n4 < 10:
+        raise AnalysisError(f"C18-R4: only {n4} where-sites with singular branches inventoried")
 
     cfgs = {}
     for rid, rel, qual, val0, producers, what in GUARDS:
@@ -274,11 +289,20 @@ def run(ctx):
         missing = sorted(set(val) - used)
         # atoms that never occur in a test of the function: the guard vanished or was respelled
         texts = set()
+        fdefs_ = {}
+        for st_ in ast.walk(func):
+            if isinstance(st_, ast.Assign) and len(st_.targets) == 1 and isinstance(st_.targets[0], ast.Name):
+                fdefs_.setdefault(st_.targets[0].id, []).append(st_.value)
         for n in g.nodes:
             if n.kind in ("if", "while") and n.expr is not None:
-                for x in ast.walk(n.expr):
-                    if isinstance(x, ast.expr):
-                        texts.add(leaf_key(x)[0])
+                todo_ = [n.expr]
+                for x0 in ast.walk(n.expr):
+                    if isinstance(x0, ast.Name) and len(fdefs_.get(x0.id, [])) == 1:
+                        todo_.append(fdefs_[x0.id][0])
+                for e_ in todo_:
+                    for x in ast.walk(e_):
+                        if isinstance(x, ast.expr):
+                            texts.add(leaf_key(x)[0])
         absent = [k for k in val if k not in texts]
         exit_reached = g.exit_return in seen
         prod_reached = []
